@@ -274,7 +274,7 @@ def walk(t):
     seen = set()
     while stack:
         x = stack.pop()
-        if id(x) in seen:
+        if id(x) in seen or not x:
             continue
         seen.add(id(x))
         yield x
